@@ -15,8 +15,36 @@ class Recorder:
 
 
 class FakeWorld:
-    def __init__(self): self.conns = []
-    def connect(self, src, dest, *attrs, **kw): self.conns.append((src, dest))
+    def __init__(self): self.conns = []; self.flows = []
+    def connect(self, src, dest, *attrs, **kw):
+        self.conns.append((src, dest))
+        # the attribute pairs as World.connect reads them (a plain name stands for the pair (name, name)) and the options
+        self.flows.append((src, dest, frozenset((a, a) if isinstance(a, str) else tuple(a) for a in attrs), tuple(sorted(kw.items()))))
+
+
+ATTR_SPECS = [('a',), ('a', 'b'), (('val', 'a'), ('val', 'b')), ('aux', ('aux', 'b')), (('x', 'y'),), ('a', ('b', 'c'), ('b', 'd'))]
+
+
+def attr_specs_check(violations):
+    """every connection a helper makes carries exactly the attribute pairs (and options) it was called with"""
+    n = 0
+    for spec in ATTR_SPECS:
+        want = frozenset((a, a) if isinstance(a, str) else tuple(a) for a in spec)
+        for asy in (False, True):
+            w = FakeWorld(); util.connect_many_to_one(w, [1, 2, 3], 9, *spec, async_requests=asy); n += 1
+            if [f[:2] for f in w.flows] != [(1, 9), (2, 9), (3, 9)] or any(f[2] != want or dict(f[3]).get('async_requests', False) != asy for f in w.flows):
+                violations.append(dict(kind='bulk', helper='connect_many_to_one', attrs=[list(x) if isinstance(x, tuple) else x for x in spec], async_requests=asy,
+                                       observed=[f'connections made: {[(f[0], f[1], sorted(f[2])) for f in w.flows]}; every source must be connected with {sorted(want)}']))
+        for evenly in (True, False):
+            w = FakeWorld(); rec = Recorder(3); old = util.random; util.random = rec
+            try:
+                util.connect_randomly(w, [1, 2, 3, 4], [7, 8], *spec, evenly=evenly); n += 1
+            finally:
+                util.random = old
+            if sorted(f[0] for f in w.flows) != [1, 2, 3, 4] or any(f[2] != want for f in w.flows):
+                violations.append(dict(kind='bulk', helper='connect_randomly', attrs=[list(x) if isinstance(x, tuple) else x for x in spec], evenly=evenly,
+                                       observed=[f'connections made: {[(f[0], f[1], sorted(f[2])) for f in w.flows]}; every source must be connected with {sorted(want)}']))
+    return n
 
 
 def call(nsrc, ndest, evenly, maxc, seed):
@@ -87,6 +115,7 @@ def run(out, info, tier, seed):
         w = FakeWorld(); util.connect_many_to_one(w, list(range(100, 100 + nsrc)), 999, 'a'); n += 1
         if w.conns != [(s, 999) for s in range(100, 100 + nsrc)]:
             violations.append(dict(kind='bulk', helper='connect_many_to_one', nsrc=nsrc, observed=[str(w.conns)]))
+    n += attr_specs_check(violations)
     mism = []
     if info.driver_ok:
         got = common.batch_model(reqs)
@@ -100,12 +129,17 @@ def run(out, info, tier, seed):
     for v in violations[:1]: out.violations.append(v)
     out.coverage = {'evaluations': n, 'distinct_nontrivial': nontriv, 'traces_validated_against_impl': len(reqs) if info.driver_ok else 0,
                     'rule': f'source sizes 0..7 x destination sizes 1..6 x (evenly | uneven with max_connects in {{inf, 1, 2, 3}}) x {nseeds} seeds, random choices recorded and replayed on the model; '
+                            'every helper also called with six attribute specifications (plain names, pairs, one source attribute fanned out to two destination attributes) - each connection must carry exactly the requested pairs; '
                             'non-trivial = at least two sources and two destinations',
                     'samples': [descs[50], {'request': reqs[50], 'implementation': impls[50]}], 'monitor_failures': len(violations), 'correspondence_mismatches': len(mism)}
 
 
 def replay(path, out):
     r = json.load(open(path))
+    if r.get('kind') == 'bulk' and 'attrs' in r:
+        v = []; attr_specs_check(v); [print(x['helper'], x['attrs'], x['observed']) for x in v]
+        if v: print(f'VIOLATION property=C18 replay={path}')
+        return 1 if v else 0
     if r.get('kind') != 'bulk' or 'seed' not in r:
         print(json.dumps(r, indent=1)[:2000]); print('re-run ./check C18'); return 1
     src, dest, conns, res, o, rec = call(r['nsrc'], r['ndest'], r['evenly'], r['max_connects'], r['seed'])
